@@ -437,3 +437,8 @@ package keeper
 // `callback-invariant` for it is verified against that invariant instead of an unrolled loop.
 //@ func (Keeper).IterateLiquidityPools
 //@ iterates handlerFn
+
+//@ func (Keeper).GetEdenDenomPrice
+//@ modular-for (Keeper).UpdateLPRewards
+//@ modifies table:amm~:types.KeyPrefix/types.PoolKey
+//@ frame-only
